@@ -667,7 +667,7 @@ def tasks(tier, seed):
     ONLY_X = {"X": 1.0, "Y": 0.0}
     def t(cls, cf, slates, N, **kw):
         p = {"cls": cls, "slates": slates, "N": N, "bloc_voter_prop": kw.pop("props", ONLY_X if len(slates) == 2 else None)}
-        for k in ("method", "ballot_length", "num_votes", "apportion_fixed"):
+        for k in ("method", "ballot_length", "num_votes", "apportion_fixed", "coh_key_order"):
             if k in kw:
                 p[k] = kw.pop(k)
         extra_task = {k: kw.pop(k) for k in ("budget_s", "max_paths") if k in kw}
@@ -684,6 +684,11 @@ def tasks(tier, seed):
         out.append(t("name_BradleyTerry", "name_bt", S1, N, apportion_fixed=[N, 0]))
         out.append(t("slate_BradleyTerry", "slate_bt", S1, N, apportion_fixed=[N, 0]))
         out.append(t("ImpartialCulture", "impartial_culture", {"X": ["a", "b", "c"] if N == 1 else ["a", "b"]}, N))
+    # cohesion dictionaries keyed in another order than the interval dictionaries
+    for cls, cf, kw in (("name_PlackettLuce", "name_pl", {}), ("name_Cumulative", "name_cumulative", {"num_votes": 2}), ("slate_PlackettLuce", "slate_pl", {}),
+                        ("name_BradleyTerry", "name_bt", {}), ("slate_BradleyTerry", "slate_bt", {})):
+        out.append(t(cls, cf, S1, 1, apportion_fixed=[1, 0], coh_key_order="reversed", **kw))
+        out[-1]["name"] += " cohesion keys reversed"
     # three slates: a slate can be used up while two others still have candidates (renormalisation)
     S3 = {"X": ["x0", "x1"], "Y": ["y0"], "Z": ["z0"]}
     P3 = {"X": 1.0, "Y": 0.0, "Z": 0.0}
